@@ -504,7 +504,9 @@ func main() {
 	res := lib.NewResult("op sequences of the db.KeyValueStore interface over a 16-key alphabet (empty key, keys extending keys, " +
 		"0xff-terminated / all-0xff prefixes, empty values) run on db/memory, db/pebble, db/pebblev2 and the Lean Mem/Spec models; " +
 		"non-trivial = distinct sequence with >= 8 ops that uses a batch, snapshot or iterator")
-	r := lib.NewRNG(f.Seed)
+	// lib.NewRNG(s) and lib.NewRNG(s+1) are the same SplitMix stream shifted by one: scramble the seed
+	// first so that different --seed values give unrelated sequences
+	r := lib.NewRNG(lib.NewRNG(f.Seed*0x2545F4914F6CDD1D + 0x9E3779B9).Uint64() ^ f.Seed<<32)
 	defer os.Remove(scratchRoot) // only succeeds when empty
 	drv, err := lib.StartDriver(f.Driver)
 	if err != nil {
